@@ -27,11 +27,11 @@ m = {
     "version": 1,
     "setup_cmd": "cd lean && lake build",
     "hooks": {"guard": "FIBERTREE_VERIF", "enable": "no source hooks are needed: all observation points are public attributes; checks import /repo directly",
-              "baseline_off_cmd": "/verif/tools/baseline_check.py", "source_commits": claims["source_commits"], "add_only": True},
+              "baseline_off_cmd": "/verif/tools/baseline_check.py", "source_commits": [], "add_only": True},
     "engines": [{"name": "lean-model+correspondence", "path": "check", "serves_properties": [c["property_id"] for c in checks],
                  "kind_free_text": "Lean 4 model (lean/FtModel), theorems (lean/FtProofs), compiled driver (lean/Main.lean), Python differential harness (harness/)"}],
     "checks": checks,
-    "notes": claims["notes"],
+    "notes": claims["notes"] + " No hook commits exist (hooks.source_commits is empty). Unguarded repairs of genuine defects in /repo ('fix:' commits, each with the pinned test-suite unchanged): " + " ".join(claims["source_commits"]) + ".",
     "not_applicable": na,
 }
 json.dump(m, open(os.path.join(V, "MANIFEST.json"), "w"), indent=1)
